@@ -156,10 +156,20 @@ theorem C06_invalid_filter_rejected (mt : MemTopics) (f : List UInt8) (q s : Nat
     simp only [Bool.not_true, Bool.false_eq_true, ↓reduceIte, hl]
     exact ⟨trivial, sinsertL_abs_false _ _ _ _ hwf⟩
 
+/-- What the calls report, after any good history: `Subscribe` grants the
+requested QoS exactly for valid filters (and QoS <= 2), `Unsubscribe` succeeds
+exactly when the abstract store holds that (subscriber, filter) pair - the
+outcomes the specification's `step` prescribes (`granted q` / `ok` / `err`). -/
+theorem C06_outcomes_partial (ops : List Op) (f : List UInt8) (q s : Nat)
+    (hg : ∀ op ∈ ops, good (opTopic op) = true) (hgf : good f = true) :
+    ((mrun ops).subscribe 2 f q s).2 = (if q ≤ 2 ∧ validFilter f = true then some q else none) ∧
+    ((mrun ops).unsubscribe f (some s)).2 = (srun ops).subs.any (fun e => e.sub == s && e.filter == f) :=
+  ⟨subscribe_outcome (mrun ops) f q s hgf, unsubscribe_outcome (mrun ops) (srun ops).subs f s (run_inv ops hg) hgf⟩
+
 /-- non-vacuity: a history with re-subscription, removal and an invalid filter -/
 example :
     let ops : List Op := [.sub [97, 47, 43] 1 1, .sub [97, 47, 35] 2 2, .sub [97, 47, 43] 0 1,
-                          .sub [97, 35] 1 3, .sub [98] 1 4, .unsub [98] 4]
+                          .sub [97, 35] 1 3, .sub [97, 47, 98, 43] 1 5, .sub [98] 1 4, .unsub [98] 4]
     (∀ op ∈ ops, good (opTopic op) = true) ∧ good [97, 47, 98] = true ∧ validName [97, 47, 98] = true ∧
       (mrun ops).subscribers [97, 47, 98] 1 = some [(1, 0), (2, 1)] := by decide
 
